@@ -31,6 +31,7 @@ pub fn run_property(property: &str, tier: Tier) -> i32 {
         }
         report.set("neighbour_families", json!(rows));
     }
+    if property == "C15" { crate::lifecycle::run_c15_part(&mut report, tier); }
     if property == "C10" { super::deque::run(&mut report, tier); }
     if property == "C07" { super::settings::run(&mut report); }
     report.finish()
